@@ -71,29 +71,38 @@ class BudgetExceeded(Exception):
 
 
 class budget:
-	"""`with budget(seconds):` — hard wall cap on a call into the real code (signal.setitimer; main thread only). A call that runs
-	over raises BudgetExceeded, which the callers turn into an outcome / finding `budget-exceeded` (a loop that no longer ends,
-	an exponential blow-up) instead of a check that never returns."""
+	"""`with budget(seconds):` — hard cap on a call into the real code (main thread only). The cap is on the CPU time of this process
+	(signal.ITIMER_VIRTUAL), so the verdict does not depend on how loaded the machine is; a wall timer of `WALL_FACTOR` times
+	that stands behind it for calls that block without using CPU. A call that runs over raises BudgetExceeded, which the callers turn
+	into an outcome / finding `budget-exceeded` (a loop that no longer ends, an exponential blow-up) instead of a check that never
+	returns. Budgets do not nest (the inner one would cancel the outer timers): callers wrap single calls."""
+
+	WALL_FACTOR = 10.0
 
 	def __init__(self, seconds: float) -> None:
 		self.seconds = seconds
 
 	def _fire(self, *a: Any) -> None:
-		raise BudgetExceeded(f'no result within {self.seconds} s')
+		raise BudgetExceeded(f'no result within {self.seconds} s of CPU time ({self.seconds * self.WALL_FACTOR:.0f} s wall)')
 
 	def __enter__(self) -> 'budget':
 		import signal
-		self._old = signal.signal(signal.SIGALRM, self._fire)
-		signal.setitimer(signal.ITIMER_REAL, self.seconds)
+		self._old = signal.signal(signal.SIGVTALRM, self._fire)
+		self._old_real = signal.signal(signal.SIGALRM, self._fire)
+		# repeating timers: code under test that swallows the first BudgetExceeded in a broad `except` is interrupted again
+		signal.setitimer(signal.ITIMER_VIRTUAL, self.seconds, 1.0)
+		signal.setitimer(signal.ITIMER_REAL, self.seconds * self.WALL_FACTOR, 5.0)
 		return self
 
 	def __exit__(self, *a: Any) -> None:
 		import signal
+		signal.setitimer(signal.ITIMER_VIRTUAL, 0)
 		signal.setitimer(signal.ITIMER_REAL, 0)
-		signal.signal(signal.SIGALRM, self._old)
+		signal.signal(signal.SIGVTALRM, self._old)
+		signal.signal(signal.SIGALRM, self._old_real)
 
 
-CALL_BUDGET_S = 8.0
+CALL_BUDGET_S = 15.0  # CPU seconds; the slowest sentences the generators emit take ≈ 1.5 s (harness/c11.py too_deep)
 
 
 class Deadline:
@@ -123,6 +132,20 @@ def real_parse(rules: Any, tokenizer: Any, source: str, entry: str = 'entry') ->
 		with budget(CALL_BUDGET_S):
 			tree = SyntaxParser(rules, tokenizer).parse(source, entry)
 			return 'ok', tree.simplify()
+	except BudgetExceeded:
+		return 'budget-exceeded', None
+	except Errors.Syntax as e:
+		return 'Errors.Syntax', str(e)
+	except Exception as e:  # noqa: BLE001
+		return exc_enum(e), None
+
+
+def real_parse_with(parser: Any, source: str, entry: str = 'entry') -> tuple[str, Any]:
+	"""real_parse on a given SyntaxParser instance (history replays)"""
+	from rogw.tranp.errors import Errors
+	try:
+		with budget(CALL_BUDGET_S):
+			return 'ok', parser.parse(source, entry).simplify()
 	except BudgetExceeded:
 		return 'budget-exceeded', None
 	except Errors.Syntax as e:
@@ -486,10 +509,16 @@ def _wordlike(s: str) -> bool:
 	return bool(re.fullmatch(r'[\w.]+|\'.*\'|".*"', s, flags=re.S))
 
 
-def render_tokens(tokens: list[str], rng: random.Random | None = None, tight: float = 0.0, indent: str = '\t') -> str:
-	"""Token strings (incl. "\\n", \\INDENT, \\DEDENT, \\OP_UNARY_MINUS) -> source text. Blocks are indented with tabs."""
+WRAP_INDENTS = ['', ' ', '  ', '    ', '      ', '        ', '\t', '\t\t', '\t\t\t']
+
+
+def render_tokens(tokens: list[str], rng: random.Random | None = None, tight: float = 0.0, indent: str = '\t', wrap: float = 0.0) -> str:
+	"""Token strings (incl. "\\n", \\INDENT, \\DEDENT, \\OP_UNARY_MINUS) -> source text. Blocks are indented with `indent`. With `wrap`, the blank
+	after an opening bracket or a comma and before a closing bracket — inside brackets only — becomes a line break followed by an
+	arbitrary indentation (a continuation line: insignificant layout for CPython and for the tokenizer)."""
 	out: list[str] = []
 	level = 0
+	depth = 0
 	at_line_start = True
 	prev: str | None = None
 	glue_next = False
@@ -523,8 +552,14 @@ def render_tokens(tokens: list[str], rng: random.Random | None = None, tight: fl
 					sep = ''
 				elif text == ':' and _wordlike(prev):
 					sep = ''
+			if wrap and rng is not None and depth > 0 and prev is not None and (prev in OPENERS or prev == ',' or text in CLOSERS) and rng.random() < wrap:
+				sep = '\n' + rng.choice(WRAP_INDENTS)
 			out.append(sep)
 		out.append(text)
+		if text in OPENERS:
+			depth += 1
+		elif text in CLOSERS:
+			depth = max(0, depth - 1)
 		glue_next = t == '\\OP_UNARY_MINUS'
 		prev = text
 	return ''.join(out)
